@@ -1,6 +1,7 @@
 import Driver.Util
 import Driver.Ante
 import Driver.Agg
+import Driver.Price
 open Driver
 
 def dispatch (fam : String) : Option (List String → String → Option Res) :=
@@ -9,6 +10,9 @@ def dispatch (fam : String) : Option (List String → String → Option Res) :=
   | "track" => some runTrack
   | "median" => some runMedian
   | "mode" => some runMode
+  | "medianu" => some runMedianU
+  | "mediani" => some runMedianI
+  | "pcache" => some runPcache
   | _ => none
 
 def splitArrow (fs : List String) : List String × String :=
